@@ -1717,3 +1717,115 @@ func ruleParseFloatBits(prog *Program, rep *Report, rels ...string) {
 	rep.Rules = append(rep.Rules, "K-parsebits: strconv.ParseFloat is called with bit size 32 only where the enclosing case clause is for float32 alone")
 	runSynRule(prog, rep, "K-parsebits", rels, matchParseFloatBits, fixtureParseFloatBits, 1, 2)
 }
+
+// ---------------------------------------------------------------- M-pairwise
+
+// matchPairwiseLookup: inside `for k := range A` the other object is indexed with
+// the same key in the one-result form (B[k] with interface values): a key missing
+// from B reads as a null member, so {a:1 c:null} and {a:1 b:2} compare equal.
+func matchPairwiseLookup(files []*ast.File, info *types.Info) (sites []synSite, examined int) {
+	for _, f := range files {
+		ast.Inspect(f, func(n ast.Node) bool {
+			rs, ok := n.(*ast.RangeStmt)
+			if !ok || rs.Key == nil {
+				return true
+			}
+			kid, ok := rs.Key.(*ast.Ident)
+			if !ok || kid.Name == "_" {
+				return true
+			}
+			kobj := info.Defs[kid]
+			if kobj == nil {
+				kobj = info.Uses[kid]
+			}
+			at := info.TypeOf(rs.X)
+			if at == nil {
+				return true
+			}
+			if _, isMap := at.Underlying().(*types.Map); !isMap {
+				return true
+			}
+			rangeOver := types.ExprString(rs.X)
+			var stack []ast.Node
+			ast.Inspect(rs.Body, func(k ast.Node) bool {
+				if k == nil {
+					stack = stack[:len(stack)-1]
+					return true
+				}
+				stack = append(stack, k)
+				ix, ok := k.(*ast.IndexExpr)
+				if !ok {
+					return true
+				}
+				id, ok := ast.Unparen(ix.Index).(*ast.Ident)
+				if !ok || info.Uses[id] != kobj || types.ExprString(ix.X) == rangeOver {
+					return true
+				}
+				mt := info.TypeOf(ix.X)
+				if mt == nil {
+					return true
+				}
+				m, isMap := mt.Underlying().(*types.Map)
+				if !isMap {
+					return true
+				}
+				if _, isIface := m.Elem().Underlying().(*types.Interface); !isIface {
+					return true
+				}
+				examined++
+				// two-result form or a store?
+				if len(stack) >= 2 {
+					switch p := stack[len(stack)-2].(type) {
+					case *ast.AssignStmt:
+						for _, l := range p.Lhs {
+							if l == ast.Expr(ix) {
+								return true // B[k] = ...
+							}
+						}
+						if len(p.Lhs) == 2 && len(p.Rhs) == 1 && p.Rhs[0] == ast.Expr(ix) {
+							if b, ok := p.Lhs[1].(*ast.Ident); !ok || b.Name != "_" {
+								return true // v, has := B[k]
+							}
+						}
+					case *ast.ValueSpec:
+						if len(p.Names) == 2 {
+							return true
+						}
+					}
+				}
+				sites = append(sites, synSite{pos: ix.Pos(), file: f, key: enclosingFuncName(f, ix.Pos()) + ":pairwise-lookup:" + types.ExprString(ix),
+					msg: fmt.Sprintf("while ranging over %s the other object is read as %s without the presence flag: a key that %s lacks is taken for a null member", rangeOver, types.ExprString(ix), types.ExprString(ix.X))})
+				return true
+			})
+			return true
+		})
+	}
+	return
+}
+
+const fixturePairwise = `package fixture
+
+func equal(t0, t1 map[string]any) bool {
+	for k, m0 := range t0 {
+		if m0 != t1[k] {
+			return false
+		}
+	}
+	return true
+}
+
+func fine(t0, t1 map[string]any) bool {
+	for k, m0 := range t0 {
+		m1, has := t1[k]
+		if !has || m0 != m1 {
+			return false
+		}
+	}
+	return true
+}
+`
+
+func rulePairwiseLookup(prog *Program, rep *Report, floor int, rels ...string) {
+	rep.Rules = append(rep.Rules, "M-pairwise: inside a loop over the keys of one object, another object with interface values is read at the same key only in the two-result form (or written): member-wise comparison, difference and matching distinguish a missing key from a null member")
+	runSynRule(prog, rep, "M-pairwise", rels, matchPairwiseLookup, fixturePairwise, 1, floor)
+}
